@@ -55,7 +55,8 @@ def required(tier):
         'mission:built:from_toml', 'mission:built:from_query_result',
         'oracle:vincenty', 'oracle:closure-only', 'history:confusable-track-built-before',
         'history:confusable-track:minus-one-vs-minus-two', 'duplicate:copy', 'duplicate:deepcopy',
-        'duplicate:pickle', 'probe:round-trip-track', 'probe:chained-steps-across-the-end']
+        'duplicate:pickle', 'probe:round-trip-track', 'probe:chained-steps-across-the-end',
+        'probe:sub-millimetre-leg-across-the-antimeridian']
     return {'classes': cl, 'evaluations': 3000}
 
 
@@ -165,7 +166,19 @@ def run_shard(spec, rec):
         while len(pts) < nwp:
             a, b, c, d = gen_pair(rng, rng.choice(['random', 'antimeridian', 'polar']))
             pts.append((c, d))
-        if nwp >= 3 and rng.random() < 0.3:
+        micro_leg = None
+        if nwp >= 3 and rng.random() < 0.2:
+            # two fixes a fraction of a millimetre apart, either side of the antimeridian
+            i_ = rng.randrange(1, len(pts) - 1)
+            la_ = rng.uniform(-60, 60)
+            off = 10 ** rng.uniform(-9.5, -8.5)
+            a_, b_ = (la_, 180.0 - off), (la_ + rng.uniform(-1, 1) * off, -180.0 + off)
+            if rng.random() < 0.5:
+                a_, b_ = b_, a_
+            pts[i_:i_ + 1] = [a_, b_]
+            micro_leg = i_
+            rec.cls('probe:sub-millimetre-leg-across-the-antimeridian')
+        if micro_leg is None and nwp >= 3 and rng.random() < 0.3:
             pts[-1] = pts[0]                 # a round trip: the track returns to its start
             if pts[-2] == pts[-1]:
                 pts[-2] = (pts[-2][0] * 0.5 + 1.0, pts[-2][1])
@@ -261,6 +274,9 @@ def run_shard(spec, rec):
         ds += [total * 1e-9, total * (1 - 1e-9), total / 2]
         for i in range(1, len(pts) - 1):
             ds.append(gt.waypoint_distance(i))
+        if micro_leg is not None:
+            a0, a1 = gt.waypoint_distance(micro_leg), gt.waypoint_distance(micro_leg + 1)
+            ds += [a0 + f_ * (a1 - a0) for f_ in (0.25, 0.5, 0.75)]
         for d in ds:
             rec.ev()
             try:
